@@ -86,6 +86,8 @@ def gen_transformer(rng, width, depth, names):
             cols = sorted(rng.choice(width, k, replace=False).tolist())
             used.update(cols)
             sel = [names[c] for c in cols] if by_name else [int(c) for c in cols]
+            if not by_name and rng.rand() < 0.2:
+                sel = [int(c) - width for c in cols]          # positions counted from the end (valid in scikit-learn)
             # the same selection in another container (what df.columns[...] or numpy.arange(...) hand over)
             cont = rng.randint(4)
             if cont == 1:
